@@ -292,12 +292,7 @@ func c15(r *core.Run) {
 	// T1: per-run timer queue with the configured duration
 	{
 		durF, okD := setterField(p, "", "Service", "SetQueryEventDuration", 0)
-		var firstGo ssa.Instruction
-		for _, c := range core.Calls(serve) {
-			if core.IsGo(c) && firstGo == nil {
-				firstGo = c
-			}
-		}
+		firstGo := firstWorkerStart(p, a)
 		good, why := false, "no timerqueue.New in serve"
 		for _, c := range core.Calls(serve) {
 			cal := c.Common().StaticCallee()
